@@ -17,7 +17,7 @@ import sim as simmod
 import swarm
 
 VERIF = boot.VERIF
-RUN_TIMEOUT_S = 600  # wall-clock backstop per run (a run normally takes 5-200 ms); never a verdict
+RUN_TIMEOUT_S = int(os.environ.get("VERIF_RUN_TIMEOUT", "600"))  # wall-clock backstop per run (a run normally takes 5-200 ms); never a verdict
 
 
 class RunTimeout(BaseException):
